@@ -297,7 +297,8 @@ theorem step_stop_good {w : World} (h : GoodFd w.fd) {cf : Option Fmt} {to : Fmt
     {s : LoopSt} {r : Run} {path : InputPath} (hI : FlushedInv w s) (hs : step w cf to s path = .stop r) :
     r.exit = .code 1 ∧
       ((r.calls = s.calls ∧ r.stdout = libOutput w s.calls) ∨
-       (∃ input q, r.calls = callsAfter w cf to s path input ∧ r.stdout = libOutput w s.calls ++ q ∧
+       (∃ input q, path.open w.fs = .ok input ∧ r.calls = callsAfter w cf to s path input ∧
+          r.stdout = libOutput w s.calls ++ q ∧
           q <+: callBytes w (s.calls.map (·.2)) (callOf w cf to path input))) := by
   have partial_ok : ∀ (input : Input) (tr : TrR) (o1 : Out), Translated w cf to s path input tr o1 →
       ∃ q, o1.fd.accepted = libOutput w s.calls ++ q ∧
@@ -328,7 +329,7 @@ theorem step_stop_good {w : World} (h : GoodFd w.fd) {cf : Option Fmt} {to : Fmt
     cases hr : (w.lib.run (s.calls.map (·.2)) (callOf w cf to path i)).result <;> rw [hr] at t1 <;> simp at t1
   · injection hs with hs; subst hs
     obtain ⟨q, hq1, hq2⟩ := partial_ok i _ o1 hT
-    exact ⟨rfl, .inr ⟨i, q, rfl, by simp [exitWith, Run.stdout, hq1], hq2⟩⟩
+    exact ⟨rfl, .inr ⟨i, q, hT.1, rfl, by simp [exitWith, Run.stdout, hq1], hq2⟩⟩
   · obtain ⟨o2', hw, _⟩ := writerFlush_good h o1
     rw [hfl] at hw; simp at hw
   · obtain ⟨o2', hw, _⟩ := writerFlush_good h o1
@@ -373,7 +374,8 @@ theorem mainLoop_good (w : World) (h : GoodFd w.fd) (hf : w.perInputFlush = true
         foldSteps w cf to pre LoopSt.init = some s' ∧ step w cf to s' p = .stop r ∧
         FlushedInv w s' ∧ s'.calls.map (·.1) = pre ∧
         ((r.calls = s'.calls ∧ r.stdout = libOutput w s'.calls) ∨
-         (∃ input q, r.calls = callsAfter w cf to s' p input ∧ r.stdout = libOutput w s'.calls ++ q ∧
+         (∃ input q, p.open w.fs = .ok input ∧ r.calls = callsAfter w cf to s' p input ∧
+            r.stdout = libOutput w s'.calls ++ q ∧
             q <+: callBytes w (s'.calls.map (·.2)) (callOf w cf to p input)))) := by
   intro r
   rcases mainLoop_cases w cf to paths LoopSt.init with ⟨s', h1, h2⟩ | ⟨pre, p, post, s', r', h1, h2, h3, h4⟩
@@ -394,5 +396,108 @@ theorem mainLoop_good (w : World) (h : GoodFd w.fd) (hf : w.perInputFlush = true
     obtain ⟨e1, e2⟩ := step_stop_good h hI h3
     rw [hr]
     exact ⟨e1, pre, p, post, s', h1, h2, h3, hI, by simpa [LoopSt.init] using hc, e2⟩
+
+/-! ### Which calls a run makes -/
+
+theorem open_stdin_iff (fs : Str → FileKind) (path : InputPath) :
+    path.open fs = .ok .stdin ↔ path = .stdin := by
+  cases path with
+  | stdin => simp [InputPath.open]
+  | file p => simp only [InputPath.open]; split <;> simp
+
+/-- Every call is `callOf` of an input that opened. -/
+def CallOk (w : World) (cf : Option Fmt) (to : Fmt) (pc : InputPath × Call) : Prop :=
+  ∃ input, pc.1.open w.fs = .ok input ∧ pc.2 = callOf w cf to pc.1 input
+
+theorem step_next_calls {w : World} {cf : Option Fmt} {to : Fmt} {s s' : LoopSt} {path : InputPath}
+    (hs : step w cf to s path = .next s') :
+    ∃ input, path.open w.fs = .ok input ∧ ¬ (input = .stdin ∧ s.stdinUsed = true) ∧
+      s'.calls = callsAfter w cf to s path input ∧ s'.stdinUsed = (s.stdinUsed || (input = .stdin)) := by
+  rcases step_cases w cf to s path with ⟨msg, _, e⟩ | ⟨_, _, e⟩ | ⟨i, o1, _, e⟩ | ⟨i, o1, msg, _, e⟩ |
+    ⟨i, o1, hT, _, e⟩ | ⟨i, o1, o2, _, _, _, e⟩ | ⟨i, o1, o2, er, _, _, _, e⟩ | ⟨i, o1, o2, hT, _, _, e⟩
+  all_goals rw [e] at hs
+  all_goals try (simp at hs; done)
+  all_goals (injection hs with hs; subst hs; exact ⟨i, hT.1, hT.2.1, rfl, rfl⟩)
+
+theorem step_stop_calls {w : World} {cf : Option Fmt} {to : Fmt} {s : LoopSt} {r : Run} {path : InputPath}
+    (hs : step w cf to s path = .stop r) :
+    r.calls = s.calls ∨
+      ∃ input, path.open w.fs = .ok input ∧ ¬ (input = .stdin ∧ s.stdinUsed = true) ∧
+        r.calls = callsAfter w cf to s path input := by
+  rcases step_cases w cf to s path with ⟨msg, _, e⟩ | ⟨_, _, e⟩ | ⟨i, o1, hT, e⟩ | ⟨i, o1, msg, hT, e⟩ |
+    ⟨i, o1, _, _, e⟩ | ⟨i, o1, o2, hT, _, _, e⟩ | ⟨i, o1, o2, er, hT, _, _, e⟩ | ⟨i, o1, o2, _, _, _, e⟩
+  all_goals rw [e] at hs
+  all_goals try (simp at hs; done)
+  · injection hs with hs; subst hs; exact .inl rfl
+  · injection hs with hs; subst hs; exact .inl rfl
+  all_goals (injection hs with hs; subst hs; exact .inr ⟨i, hT.1, hT.2.1, rfl⟩)
+
+/-- Invariant: every call is well-formed, standard input was used at most
+once, and `stdin_used` says whether it was. -/
+def CallsInv (w : World) (cf : Option Fmt) (to : Fmt) (used : Bool) (calls : List (InputPath × Call)) : Prop :=
+  (∀ pc ∈ calls, CallOk w cf to pc) ∧ (calls.filter (fun pc => pc.1 = .stdin)).length ≤ 1 ∧
+    (used = false → calls.filter (fun pc => pc.1 = .stdin) = []) ∧
+    (used = true → .stdin ∈ calls.map (·.1))
+
+theorem callsInv_after {w : World} {cf : Option Fmt} {to : Fmt} {s : LoopSt} {path : InputPath} {input : Input}
+    (hI : CallsInv w cf to s.stdinUsed s.calls) (ho : path.open w.fs = .ok input)
+    (h2 : ¬ (input = .stdin ∧ s.stdinUsed = true)) :
+    CallsInv w cf to (s.stdinUsed || (input = .stdin)) (callsAfter w cf to s path input) := by
+  obtain ⟨i1, i2, i3, i4⟩ := hI
+  have hiff : input = .stdin ↔ path = .stdin := by
+    constructor
+    · intro h; subst h; exact (open_stdin_iff _ _).1 ho
+    · intro h; subst h; simp [InputPath.open] at ho; exact ho.symm
+  refine ⟨?_, ?_, ?_, ?_⟩
+  · intro pc hpc
+    simp only [callsAfter, List.mem_append, List.mem_singleton] at hpc
+    rcases hpc with hpc | hpc
+    · exact i1 pc hpc
+    · subst hpc; exact ⟨input, ho, rfl⟩
+  · simp only [callsAfter, List.filter_append, List.length_append]
+    by_cases hp : path = .stdin
+    · have hu : s.stdinUsed = false := by
+        cases hsu : s.stdinUsed with
+        | false => rfl
+        | true => exact absurd ⟨hiff.2 hp, hsu⟩ h2
+      rw [i3 hu]; simp [hp]
+    · simp [List.filter, hp]; exact i2
+  · intro hu
+    simp only [Bool.or_eq_false_iff, decide_eq_false_iff_not] at hu
+    obtain ⟨hu1, hu2⟩ := hu
+    have hp : ¬ path = .stdin := fun hp => hu2 (hiff.2 hp)
+    simp [callsAfter, List.filter_append, i3 hu1, List.filter, hp]
+  · intro hu
+    simp only [Bool.or_eq_true, decide_eq_true_eq] at hu
+    simp only [callsAfter, List.map_append, List.mem_append, List.map_cons, List.map_nil, List.mem_singleton]
+    rcases hu with hu | hu
+    · exact .inl (i4 hu)
+    · exact .inr (hiff.1 hu).symm
+
+theorem callsInv_init (w : World) (cf : Option Fmt) (to : Fmt) :
+    CallsInv w cf to LoopSt.init.stdinUsed LoopSt.init.calls := by
+  simp [CallsInv, LoopSt.init]
+
+theorem foldSteps_callsInv {w : World} {cf : Option Fmt} {to : Fmt} {paths : List InputPath} {s s' : LoopSt}
+    (hI : CallsInv w cf to s.stdinUsed s.calls) (hfold : foldSteps w cf to paths s = some s') :
+    CallsInv w cf to s'.stdinUsed s'.calls := by
+  refine foldSteps_invariant (fun s => CallsInv w cf to s.stdinUsed s.calls) ?_ hI hfold
+  intro s p s1 hI hs
+  obtain ⟨input, ho, h2, hc, hu⟩ := step_next_calls hs
+  rw [hc, hu]; exact callsInv_after hI ho h2
+
+/-- **Every run of the loop** makes only well-formed calls and at most one on standard input. -/
+theorem mainLoop_callsInv (w : World) (cf : Option Fmt) (to : Fmt) (paths : List InputPath) :
+    (∀ pc ∈ (mainLoop w cf to paths LoopSt.init).calls, CallOk w cf to pc) ∧
+    ((mainLoop w cf to paths LoopSt.init).calls.filter (fun pc => pc.1 = .stdin)).length ≤ 1 := by
+  rcases mainLoop_cases w cf to paths LoopSt.init with ⟨s', h1, h2⟩ | ⟨pre, p, post, s', r, h1, h2, h3, h4⟩
+  · have hI := foldSteps_callsInv (callsInv_init w cf to) h1
+    rw [h2]; exact ⟨hI.1, hI.2.1⟩
+  · have hI := foldSteps_callsInv (callsInv_init w cf to) h2
+    rw [h4]
+    rcases step_stop_calls h3 with hc | ⟨input, ho, hn, hc⟩
+    · rw [hc]; exact ⟨hI.1, hI.2.1⟩
+    · have := callsInv_after hI ho hn
+      rw [hc]; exact ⟨this.1, this.2.1⟩
 
 end Xt.Cli
